@@ -17,7 +17,9 @@ class C03(C01):
           "every forest of <=5 states x every init assignment x every start state. Oracle: "
           "reference model: entries from the outermost enclosing state inward to S, INIT on S, "
           "then each init target's path entered in order; exactly these entry/init actions, no "
-          "EXIT action at all, resting state = last init target. Non-trivial: depth(S) >= 2 or "
+          "EXIT action at all, resting state = last init target. Half of the cases start the same chart object "
+          "a second time at another state (the whole path is entered again); a quarter have init "
+          "actions that return no status (tolerated as 'no initial transition'). Non-trivial: depth(S) >= 2 or "
           "init chain >= 1; distinct = distinct (chart, start) digests.")
   assumptions = [
     "observes handler-side action logs and chart.state_name only",
@@ -27,7 +29,16 @@ class C03(C01):
   def strategy(self, tier):
     hosts = st.sampled_from(["plain", "instr", "queued", "queued_off"])
     base = st.one_of(chartgen.chart_case(max_events=0), y_case())
-    return st.tuples(base, hosts).map(lambda t: dict(t[0], host=t[1], events=[]))
+    def finish(t):
+      case = dict(t[0], host=t[1], events=[])
+      n = case["spec"]["n"]
+      # start the same chart object a second time somewhere else (everything is entered again)
+      case["restart"] = t[2] % n if t[3] else None
+      if t[4]:
+        # init actions that return no status are tolerated as "no initial transition"
+        case["spec"] = dict(case["spec"], initnone=[(t[2] + i) % 3 == 0 for i in range(n)])
+      return case
+    return st.tuples(base, hosts, st.integers(0, 50), st.booleans(), st.integers(0, 3).map(lambda x: x == 0)).map(finish)
 
   def check(self, case, stats):
     case = dict(case, events=[])
@@ -43,6 +54,23 @@ class C03(C01):
       raise PropertyViolation(start.msg, "C03:" + start.aspect)
     if any(x[0] == "EXIT" for x in rt.log):
       raise PropertyViolation("start_at ran an exit action: %s" % (rt.log,), "C03:exit")
+    if case.get("restart") is not None and start.aspect is None:
+      # the same chart object is started again: the whole path is entered again, outside-in
+      from ..hsmcheck import structural, visible, fmt, name_of
+      from ..common import HarnessBound
+      rt.clear()
+      want = visible(case["spec"], model.start(case["restart"]))
+      try:
+        chart.start_at(rt.fns[case["restart"]])
+      except HarnessBound as e:
+        raise PropertyViolation("second start_at(%s) did not terminate" % name_of(case["restart"]), "C03:restart")
+      except Exception as e:
+        raise PropertyViolation("second start_at(%s) on the same chart raised %s: %s" % (
+          name_of(case["restart"]), type(e).__name__, e), "C03:restart")
+      got = structural(rt.log)
+      if got != want or chart.state_name != name_of(model.cur):
+        raise PropertyViolation("second start_at(%s) on the same chart ran [%s] and rests in %s, expected [%s] and %s" % (
+          name_of(case["restart"]), fmt(got), chart.state_name, fmt(want), name_of(model.cur)), "C03:restart")
 
   def extra(self, tier, seed, shard, nshards, stats):
     if tier != "thorough":
